@@ -96,7 +96,9 @@ def hostile(rng, entry, dev, v):
                 "entry": "kind_mismatch"}
     cx, cv = _valid_child(rng, kind, e)
     if entry == "unknown_device":
-        return {"xml": wrap(cx, device="NOPE"), "valid": [], "parser_ok": True}
+        # a name no device has - including the empty name, a blank, and near misses of a real name
+        nodev = rng.choice(["NOPE", "NOPE", "", "", " ", dev + " ", dev.lower() if dev.lower() != dev else dev + "x", dev[:-1]])
+        return {"xml": wrap(cx, device=nodev), "valid": [], "parser_ok": True}
     if entry == "unknown_property":
         return {"xml": wrap(cx, name="NOPE_" + v["name"]), "valid": [], "parser_ok": True}
     if entry == "unknown_element":
